@@ -652,13 +652,9 @@ func emitScanCase(s *scanSpec, obs *scanObs) (string, string, bool, string) {
 		}
 		lockT := canonTime(g.State.LockTime, obs.PreLock[g.Name], preLockM, obs)
 		lastOut := canonTime(g.State.LastScaleOut, obs.PreOut[g.Name], preOutM, obs)
-		if obs.Out == 3 && gi == lastReached && !genInclude("exit_last_scale_out") {
-			// The process ended inside this group's scale-up (log.Fatalf): there is no post-state to observe; the exit trap
-			// unwinds before `lastScaleOut = time.Now()`.  The model assigns the scan instant; the harness reports the same
-			// (declared canonicalisation, see design-notes/gen-notes.md; VERIF_GEN_INCLUDE=exit_last_scale_out shows the raw value).
-			v := nowNs
-			lastOut = &v
-		}
+		// (Until main's Scan.v stopped assigning lastScaleOut on OutExit the harness reported the scan instant here for a group
+		// that ended in log.Fatalf; the observed value is emitted as is now.  corpus/exit_last_scale_out.json is the regression input.)
+		_ = lastReached
 		st := in.cgstate(g.State.Locked, lockT, g.State.Requested, g.State.ScaleDelta, lastOut, g.State.CPUCapMilli, g.State.MemCapBytes, g.State.TaintTracker, g.State.ForceTaintTracker)
 		og = append(og, fmt.Sprintf("(Build_obs_group %s %s %s %s %s)", cz(in.ID(g.Name)), clist(cs), st, cz(g.Desired), cz(int64(g.Tries))))
 		keyParts += fmt.Sprintf("|%d|%v|%d", g.State.ScaleDelta, g.State.Locked, g.Desired)
